@@ -916,6 +916,9 @@ def mk_phi(terms):
 def mk_field(t, name, idx):
     # projection through a known aggregate
     name = str(name) if isinstance(name, int) else name
+    if t[0] == "bin" and t[1].endswith("WithOverflow") and name == "0":
+        # `(a op b).0` of a checked operation is the plain result: debug and release MIR then give the same term
+        return ("bin", t[1][: -len("WithOverflow")], t[2], t[3])
     if t[0] == "agg":
         for n, v in t[3]:
             if str(n) == name:
